@@ -119,3 +119,14 @@ func refHashDB(tag byte, n int) []byte {
 	}
 	return refESLEncode([]RefList{l})
 }
+
+// refHashDBEntry returns the i-th hash of refHashDB(tag, n).
+func refHashDBEntry(tag byte, i int) []byte {
+	d := make([]byte, 32)
+	for j := range d {
+		d[j] = tag ^ byte(i*7+j)
+	}
+	d[0] = tag
+	d[1] = byte(i)
+	return d
+}
